@@ -192,26 +192,24 @@ Proof.
 Qed.
 Lemma label_not_id r l : In r G -> In l (s_labels r) -> ~ In l (ids G).
 Proof.
-  intros Hr Hl Hin. pose proof (label_key r l Hr Hl) as E.
-  pose proof (load_loaded _ _ _ LOAD) as LD. rewrite (key_id G M LD l Hin) in E. inversion E; subst.
-  destruct (ld_keys _ _ LD) as (extra & EK & H1 & H2).
+  intros Hr Hl Hin.
   (* l is an id, so the label could not have been added *)
   destruct (oracle_covers r Hr) as (last & Ho); [intros E0; rewrite E0 in Hl; destruct Hl|].
   pose proof LOAD as L0. unfold load in L0. destruct (negb (oracle_ok G oracle)); [discriminate|].
   destruct (map_branch_labels G (map fst oracle) _) as [keys|] eqn:EM; cbn [bind] in L0; [|discriminate].
   clear - EM Ho Hl Hin ND Hr.
-  assert (Q : forall order keys keys', map_branch_labels G order keys = Ok keys' -> In (s_id r) order ->
-              lookup l keys = None).
-  { induction order as [|a order IH]; cbn; intros keys keys' H Hx; [destruct Hx|].
-    destruct (add_labels a _ keys) as [k1|] eqn:E; cbn in H; [|discriminate].
+  assert (Q : forall order ks ks', map_branch_labels G order ks = Ok ks' -> In (s_id r) order ->
+              lookup l ks = None).
+  { induction order as [|a order IH]; cbn; intros ks ks' H Hx; [destruct Hx|].
+    destruct (add_labels a _ ks) as [k1|] eqn:E; cbn in H; [|discriminate].
     destruct (streqb a (s_id r)) eqn:Ea.
     - apply streqb_eq in Ea. subst a. rewrite (find_rev_NoDup G r ND Hr) in E.
-      clear - E Hl. revert keys E. induction (s_labels r) as [|b ls IHl]; intros keys E; [destruct Hl|]. cbn in E.
-      destruct (lookup b keys) eqn:Eb; [discriminate|]. destruct Hl as [->|Hl]; auto.
-      apply IHl in E; auto. destruct (lookup l keys) eqn:El; auto. erewrite lookup_app_l in E; eauto.
+      clear - E Hl. revert ks E. induction (s_labels r) as [|b ls IHl]; intros ks E; [destruct Hl|]. cbn in E.
+      destruct (lookup b ks) eqn:Eb; [discriminate|]. destruct Hl as [->|Hl]; auto.
+      apply IHl in E; auto. destruct (lookup l ks) eqn:El; auto. erewrite lookup_app_l in E; eauto.
     - destruct Hx as [Hx|Hx]; [rewrite Hx, streqb_refl in Ea; discriminate|].
       specialize (IH _ _ H Hx). apply add_labels_spec in E as (extra & -> & _).
-      destruct (lookup l keys) eqn:El; auto. erewrite lookup_app_l in IH; eauto. }
+      destruct (lookup l ks) eqn:El; auto. erewrite lookup_app_l in IH; eauto. }
   specialize (Q _ _ _ EM (in_map fst _ _ Ho)). rewrite lookup_self in Q; [discriminate|auto].
 Qed.
 
@@ -268,7 +266,7 @@ Proof.
   assert (Hpd : In p (nextrev G d)).
   { apply nextrev_down; auto. split; auto. rewrite Dof; left; auto. }
   assert (Only : forall c, In c (nextrev G d) -> c = p).
-  { intros c Hc. pose proof (nextrev_le_all d) as Le. destruct (nextrev G d) as [|a [|b t]]; cbn in *; try lia; [tauto|].
+  { intros c Hc. pose proof (nextrev_le_all d) as Le. destruct (nextrev G d) as [|a [|b t]]; [destruct Hc| |cbn [length] in Le; lia].
     destruct Hc as [<-|[]], Hpd as [<-|[]]. reflexivity. }
   split; auto. intros y Hy. apply path_inv_last in Hy as [->|(c & Pc & Hc)].
   - (* d itself *)
@@ -307,6 +305,13 @@ Proof.
     eapply upchain_inv; eauto. intros _. eapply inv_desc; eauto. eapply anc_ids; eauto.
 Qed.
 
+Lemma carries_owner (P:str -> Prop) todo : forall (cur:str -> str -> Prop) x L,
+  (forall x, cur x L -> P L) -> carries_from G cur todo x L -> P L.
+Proof.
+  induction todo as [|[R last] todo IH]; intros cur x L H C; cbn in C; [eauto|].
+  eapply IH; [|exact C]. intros y [Hy|(Hy & _)]; eauto.
+Qed.
+
 Lemma oracle_last p : In p oracle -> In (fst p) (ids G) /\ anc G (snd p) (fst p).
 Proof.
   intros Hp. pose proof LOAD as L0. unfold load in L0. destruct (negb (oracle_ok G oracle)) eqn:OK; [discriminate|].
@@ -320,8 +325,9 @@ Qed.
 
 Lemma lookup_NoDup {A} (bl:list (str*A)) p : NoDup (map fst bl) -> In p bl -> lookup (fst p) bl = Some (snd p).
 Proof.
-  induction bl as [|[k v] bl IH]; cbn; intros N [E|H]; [subst; cbn; rewrite streqb_refl; auto | destruct H |].
-  - subst. cbn. rewrite streqb_refl. reflexivity.
+  induction bl as [|[k v] bl IH]; intros N H; [destruct H|]. cbn [map fst] in N. cbn [lookup].
+  destruct H as [E|H].
+  - subst p. cbn [fst snd]. rewrite streqb_refl. reflexivity.
   - inversion N as [|? ? Hn N']; subst. destruct (streqb (fst p) k) eqn:E.
     + apply streqb_eq in E. exfalso. apply Hn. rewrite <- E. apply in_map; auto.
     + auto.
@@ -349,12 +355,16 @@ Proof.
     pose proof (lookup_NoDup _ p NDk Hp) as E.
     assert (C : carries G oracle (fst p) l).
     { apply HC; auto. unfold labels_get. rewrite E. exact Hl. }
-    (* the owner of l *)
     assert (Own : exists ro, In ro G /\ In l (s_labels ro)).
-    { clear - C. unfold carries in C. revert C. generalize (orig_label G).
-      induction oracle as [|[R last] o IH]; intros cur C; cbn in C.
-      - admit.
-      - admit. }
-    admit.
-Admitted.
+    { eapply carries_owner; [|exact C]. intros x (r & F & H). apply find_rev_In in F as [F _]. eauto. }
+    destruct Own as (ro & Hro & Hlo).
+    rewrite (label_owner ro l Hro Hlo).
+    assert (I : inv (s_id ro) (fst p)).
+    { eapply carries_sound; [apply oracle_last| |exact C].
+      intros x (r & F & H). apply find_rev_In in F as [F Ex]. rewrite (label_unique r ro l F Hro H Hlo) in Ex. subst x.
+      split; [apply in_map; auto|]. intros d Hd. right. exact Hd. }
+    destruct I as [_ I]. specialize (I (fst p) (path_refl _ _)).
+    unfold r_lineage, r_is_anc, r_parents. apply orb_true_iff.
+    destruct I as [A|A]; [left|right]; apply mems_In; eapply reach_complete with (rk:=rk); eauto using ranked_down; apply RK.
+Qed.
 End Labels.
